@@ -599,3 +599,81 @@ def frontier_search_pure(ctx, pid, which):
                     bad.append('reaches %s' % pth[-60:])
         ctx.verdict(not bad, rule, '%s:%s' % (rule, w), 'the search for the task frontier reaches no code that writes an infoset\'s cumulative regret / cumulative strategy', f.where(0),
                     '%d local functions reached; writers: %s' % (len(reached), sorted(set(bad))[:4]), breaks='infosets above the frontier are updated by the search and again by the cached root traversal: their average strategy is accumulated twice in multi-threaded runs only')
+
+
+SHRINKING = {'clear', 'drain', 'par_drain', 'take', 'truncate', 'retain', 'remove', 'remove_entry', 'split_off', 'replace', 'swap', 'pop'}
+
+
+def cache_live_at_root(ctx, pid, which):
+    """the root traversal of a pass reads the payoffs the tasks of that pass have just produced: between the
+    `par_extend` that fills the cache and the traversal call that is handed the cache, nothing empties it.
+    Decided on the host function's CFG without back edges (one pass): no shrinking call / re-initialisation of
+    the cache place on a path from the fill to the traversal."""
+    rule = '%s.cache-live' % pid
+    lib = ctx.lib
+    found = 0
+    for f in lib.non_test_fns():
+        if not any(f.name.startswith('solve::%s::' % w) for w in which):
+            continue
+        fills = [(bi, t, e) for bi, t, e in q.calls_named(f, 'par_extend')]
+        if not fills:
+            continue
+        ctx.touch(f)
+        def place_of(op):
+            if op.get('o') not in ('copy', 'move'):
+                return None
+            r = q.container_root(f, op)
+            return None if r is None else (tuple(r[0][:2]), tuple(str(x) for x in r[1]))
+        for abi, at, ae in fills:
+            cache = place_of(at['args'][0])
+            if cache is None:
+                continue
+            users = []
+            for bi, t, p in f.calls():
+                if short(p) not in TRAVERSAL_NAMES or bi == abi:
+                    continue
+                if any(place_of(a) == cache for a in t['args']) and f.dominates(abi, bi):
+                    users.append((bi, t, None))
+            if not users:
+                ctx.anchor_lost(rule, '%s: the root traversal that is handed the cache filled by par_extend' % short(q.top(f.name)), 'cache %s' % (cache,))
+                continue
+            found += 1
+            # forward edges only (an edge into a block that dominates its source closes a loop)
+            fwd = {b: [s_ for s_ in f.succ[b] if s_ in f.reach and not f.dominates(s_, b)] for b in f.reach}
+            def reach_from(x):
+                seen, todo = set(), [x]
+                while todo:
+                    y = todo.pop()
+                    for z in fwd.get(y, ()):
+                        if z not in seen:
+                            seen.add(z)
+                            todo.append(z)
+                return seen
+            after_fill = reach_from(abi)
+            for ubi, ut, ue in users:
+                between = {b for b in after_fill if b != ubi and ubi in reach_from(b)}
+                hits = []
+                for b in sorted(between):
+                    t = f.blocks[b]['term']
+                    if t['t'] == 'call' and short(t['callee'].get('path') or t['callee'].get('def') or '') in SHRINKING and t['args']:
+                        if place_of(t['args'][0]) == cache:
+                            hits.append('%s() at %s' % (short(t['callee'].get('path') or t['callee'].get('def') or ''), f.where(b)))
+                    def overwrites(pl):
+                        # the cache place itself is assigned (not: a reference to it is copied into another local)
+                        if not pl['p']:
+                            return not cache[1] and cache[0][1] == pl['l']
+                        return place_of({'o': 'move', 'pl': pl}) == cache
+                    for st in f.blocks[b]['stmts']:
+                        if st['s'] == 'assign' and st['rv']['r'] in ('use', 'agg') and overwrites(st['pl']):
+                            hits.append('re-initialised at %s' % f.where(b))
+                    if t['t'] == 'call' and t.get('dest') and overwrites(t['dest']):
+                        hits.append('re-initialised at %s' % f.where(b))
+                ctx.verdict(not hits, rule, '%s:%s' % (rule, short(q.top(f.name))),
+                            'the cache the tasks filled is still filled when the traversal from the root consults it', f.where(ubi),
+                            'cache %s%s: %d blocks between the fill and the root traversal; emptied there: %s' % ('%s%s' % cache[0], ''.join('.' + x for x in cache[1]), len(between), hits or 'never'),
+                            breaks='the subtrees the thread pool has processed are traversed and updated a second time by the root search: their regrets count double (only with several threads and a cut that splits an infoset)')
+    if found < len(which):
+        ctx.anchor_lost(rule, 'par_extend site followed by a root traversal, one per solver module', 'found %d of %d' % (found, len(which)))
+
+
+TRAVERSAL_NAMES = {'recurse_single', 'recurse_multi', 'recurse_regret'}
